@@ -23,7 +23,7 @@ def run(R):
               "broadcasting), prefixes ''/milli/micro/nano, plain arrays, plain arrays with irr_units=/flux_units=, pint quantities "
               "in the canonical units (I, E, nm) and in compatible other units (mW/m^2/nm, uW/cm^2/nm, W/m^2/um, kW.., microE, "
               "umol/m^2/s/nm, mol/cm^2/s/nm, ..; wavelengths in um, m, mm, angstrom), both directions, the numeric round trip and "
-              "the returned (prefixed) quantity fed back into the inverse; the model receives the physical values in I/E/nm; compared with the exact-rational model (exact SI constants) at rtol 1e-12. Non-trivial: "
+              "the returned (prefixed) quantity fed back into the inverse; identically-zero spectra at some pixels (the first pixel included); unit-less spectrum arrays as float64, whole-number counts in uint16/int32/int64, Fortran order, strided view or nested list (the model receives the values); the model receives the physical values in I/E/nm; compared with the exact-rational model (exact SI constants) at rtol 1e-12. Non-trivial: "
               ">=2 wavelengths with distinct values and a non-constant spectrum.")
     RT = 1e-12
     cases = []
@@ -97,11 +97,47 @@ def run(R):
             ukind = "units-argument"
             tab = IRR_UNITS if direction == "irr2flux" else FLUX_UNITS
             sunit, sfac = tab[int(rv.integers(len(tab)))]
+        # dark pixels and the representation of the spectrum array (own stream): some of the 1-D spectra along the wavelength axis
+        # are identically zero (masked / background pixels; the first one - index 0 of every other axis - half of the time), and a
+        # unit-less spectrum array is handed over as float64, as whole-number detector counts in an integer dtype (uint16 / int32 /
+        # int64; whole-number values are generated for these), in Fortran order, as a non-contiguous view or as a nested list.
+        # The model receives the values only.
+        rd = R.rng(6, k)
+        rep = "float64"
+        if shape != "scalar":
+            if not units:
+                rep = str(rd.choice(["float64", "uint16", "int32", "int64", "fortran", "strided", "list"]))
+            if rep in ("uint16", "int32", "int64"):
+                spec = rd.integers(0, 4001, size=spec.shape).astype(np.float64)
+            dark = "none"
+            if rd.integers(2) == 0:
+                wax = spec.ndim - 1 if axis is None else axis
+                mv = np.moveaxis(spec, wax, -1)            # view: (pixels..., wavelength)
+                npx = int(np.prod(mv.shape[:-1], dtype=int))
+                zero = rd.integers(2, size=npx).astype(bool)
+                zero[0] = bool(rd.integers(2))
+                idx = np.argwhere(zero.reshape(mv.shape[:-1]))
+                for ix in idx:
+                    mv[tuple(ix)] = 0.0
+                dark = ("first" if zero[0] else "not-first") if zero.any() else "none"
+            R.count("dark-pixels:%s" % dark)
+        R.count("spectrum-representation:%s" % rep)
         spec_mag = spec                                     # the numbers as written in `sunit`
         lam_mag = lamv / float(lfac) if lfac != 1 else lamv  # the numbers as written in `lunit`
         if sfac != 1:
             spec = spec_mag * float(sfac)                   # the same spectrum as plain numbers in I / E (to rounding)
-        c = dict(k=k, direction=direction, prefix=pre, shape=shape, units=units, written_as=ukind, spectrum_unit=sunit, wavelength_unit=lunit,
+        spec_arg = spec_mag                                 # the representation handed to the implementation
+        if rep in ("uint16", "int32", "int64"):
+            spec_arg = spec_mag.astype(rep)
+        elif rep == "fortran":
+            spec_arg = np.asfortranarray(spec_mag)
+        elif rep == "strided":
+            big = np.zeros(tuple(2 * m for m in spec_mag.shape)); sl = tuple(slice(None, None, 2) for _ in spec_mag.shape)
+            big[sl] = spec_mag; spec_arg = big[sl]
+        elif rep == "list":
+            spec_arg = spec_mag.tolist()
+        spec_call = spec_arg if sfac == 1 else spec         # plain numbers in I / E
+        c = dict(k=k, spectrum_given_as=rep, direction=direction, prefix=pre, shape=shape, units=units, written_as=ukind, spectrum_unit=sunit, wavelength_unit=lunit,
                  wavelength_grid=grid, wavelength_order=order, spectrum=spec_mag, wavelengths=lam_mag, axis=axis, axis_as_given=(None if axis_arg is None else int(axis_arg)))
         R.count("written-as:%s" % ukind)
         if ukind in ("compatible", "units-argument"):
@@ -118,14 +154,14 @@ def run(R):
 
         def impl():
             # history: the same grid was converted with another prefix just before (results must not depend on it)
-            fn(spec, lamv, prefix=other, axis=axis_arg)
-            arg = spec_mag * ureg(sunit) if units else spec_mag
+            fn(spec_call, lamv, prefix=other, axis=axis_arg)
+            arg = spec_mag * ureg(sunit) if units else spec_arg
             lamarg = lam_mag * ureg(lunit) if units else lamv
             ukw = {}
             if ukind == "units-argument":
                 ukw = {"irr_units": sunit} if direction == "irr2flux" else {"flux_units": sunit}
             o = fn(arg, lamarg, prefix=pre, axis=axis_arg, **ukw)
-            o_num = fn(spec, lamv, prefix=pre, axis=axis_arg, return_units=False)
+            o_num = fn(spec_call, lamv, prefix=pre, axis=axis_arg, return_units=False)
             mag = o.magnitude if hasattr(o, "magnitude") else o
             kw = {"flux_units": out_unit} if direction == "irr2flux" else {"irr_units": out_unit}
             rt = back(np.asarray(o_num), lamv, axis=axis_arg, return_units=False, **kw)
